@@ -37,6 +37,9 @@ def cases(tier, rng, boost=1):
     for form in ('per_array_narrow', 'list_of_arrays', 'statetraj'):
         yield _mk(big, 3, True, form=form, src='corpus-big')
         yield _mk([[x - 150 for x in t] for t in big], 2, False, form=form, src='corpus-big')
+    for lt, _N in gen.long_sets(tier):
+        yield _mk(lt, 3, True, src='corpus-long')
+        yield _mk([[x * 5 - 7 for x in t] for t in lt], 4, False, form='statetraj', src='corpus-long')
     yield _mk([[1, 1, 2, 2, 1, 1, 1]], 0, True, src='corpus')
     yield _mk([[1, 1, 2, 2, 1, 1, 1]], -2, False, src='corpus')
     maxlen = {'quick': 7, 'thorough': 10, 'search': 8}[tier]
